@@ -2,3 +2,4 @@ INIT Init
 NEXT Next
 INVARIANT C01_WriteDocRoundTrip
 CHECK_DEADLOCK FALSE
+INVARIANT X_RowOfTotal
